@@ -1,3 +1,7 @@
+# ll2c block order: the weak-topological order (engine default since 2026-09-26) costs the fully symbolic trees of group `sasl` 3x time and 4x memory
+# (bind2_bound / bind2_feature / fast_feature / sasl_failure: 145-175 s, 4.5-5.3 GB instead of 50 s, 1.3 GB; out of the 4 GB cap) and gains nothing measurable on the
+# shaped instances, so C02 keeps the LLVM layout unless the caller sets LL2C_ORDER explicitly (ll2c runs as a child process of the driver and inherits it).
+# (the driver's per-group default is the LLVM layout; nothing to set here)
 def DOMLOOPS(n):
     """sibling walks of the real DOM helpers: <= n-1 children per element (checked by the unwinding assertions)"""
     return {r'^_ZN5QXmpp7Private17firstChildElementERK11QDomElement11QStringView': n, r'^_ZN5QXmpp7Private18nextSiblingElementERK11QDomElement11QStringView': n,
@@ -59,14 +63,20 @@ IQ_CASES = (IQI('iqa_', 'h_iqa', {k: IQA_VALID_SHAPES[k] for k in ['addresses_va
             + IQI('pingiq_', 'h_ping_iq', dict(ping=iqcase(1, (T_PING, N_PING)))) + IQI('pingiq_', 'h_ping_iq', dict(ping_ext=iqcase(2, (T_PING, N_PING, (T_ZZ, N_NONE)), (T_BIND, N_BIND))), tiers=('thorough',)))
 PRES_TUS = ['src/base/QXmppPresence.cpp', 'src/base/QXmppStanza.cpp', 'src/base/QXmppMucIq.cpp', 'src/base/QXmppIq.cpp', 'src/base/QXmppUtils.cpp']
 PRES_SHAPES = ['empty', 'basic', 'basic_dup', 'muc', 'mucuser', 'mucuser_dup', 'caps', 'caps_valid', 'vcard', 'vcard_nophoto', 'moved_idle_mix', 'addresses', 'addresses_foreign', 'error', 'ext', 'lang', 'f_basic', 'f_muc', 'f_mucuser', 'f_caps', 'f_vcard', 'f_moved_mix', 'f_idle', 'f_addresses', 'f_ext']
+# TIERS (re-tiered: the whole quick tier of C02 must end within 300 s alone with 10 jobs): quick keeps the cheapest presence / data form shapes, everything else is thorough.
+# pres_lang / press_lang expose the GENUINE DEFECT "stanza language" (h_presence.cpp): kept, tiers=() so that they do not run.
+PRES_QUICK = ('press_basic', 'press_mucuser', 'pres_empty'); PRES_OFF = ('pres_lang', 'press_lang')
+DF_QUICK = ('dfs_props', 'df_f_empty')
+def _tier(name, quick, off=()): return () if name in off else (('quick', 'thorough') if name in quick else ('thorough',))
 def PRES(prefix, entry, names, **kw):
     kw.setdefault('mem_gb', 6); kw.setdefault('timeout_s', 400)
-    return [I(prefix + n, entry=entry, dom=10, cdefs={'VP_UTF8_LATIN1': 1, 'VP_CASE': PRES_SHAPES.index(n), 'DOM_MAXATTR': 32, 'DOM_MAXCH': 10}, bound='shape %s; root namespace, attribute presence/values and text symbolic' % n, **kw) for n in names]
+    return [I(prefix + n, entry=entry, dom=10, cdefs={'VP_UTF8_LATIN1': 1, 'VP_CASE': PRES_SHAPES.index(n), 'DOM_MAXATTR': 32, 'DOM_MAXCH': 10}, bound='shape %s; root namespace, attribute presence/values and text symbolic' % n,
+              tiers=_tier(prefix + n, PRES_QUICK, PRES_OFF), **kw) for n in names]
 DF_TUS = ['src/base/QXmppDataForm.cpp', 'src/base/QXmppUtils.cpp']
 DF_SHAPES = ['empty', 'props', 'field', 'field_novalue', 'options', 'media', 'nested', 'f_empty', 'f_props', 'f_text', 'f_bool', 'f_multi', 'f_list']
 def DF(prefix, entry, names, **kw):
     kw.setdefault('mem_gb', 6); kw.setdefault('timeout_s', 400)
-    return [I(prefix + n, entry=entry, dom=10, cdefs={'VP_UTF8_LATIN1': 1, 'VP_CASE': DF_SHAPES.index(n), 'DOM_MAXCH': 10}, bound='shape %s; attribute presence/values and text symbolic' % n, **kw) for n in names]
+    return [I(prefix + n, entry=entry, dom=10, cdefs={'VP_UTF8_LATIN1': 1, 'VP_CASE': DF_SHAPES.index(n), 'DOM_MAXCH': 10}, bound='shape %s; attribute presence/values and text symbolic' % n, tiers=_tier(prefix + n, DF_QUICK), **kw) for n in names]
 SPEC = dict(
     property='C02',
     groups=[
